@@ -410,7 +410,7 @@ func (p *Pollard) Verify(delHashes []Hash, proof Proof, remember bool) error {
 			len(proof.Targets), len(delHashes))
 	}
 
-	_, rootCandidates, err := calculateHashes(p.NumLeaves, delHashes, proof)
+	_, rootCandidates, rootRows, err := calculateHashesAndRows(p.NumLeaves, delHashes, proof)
 	if err != nil {
 		return err
 	}
@@ -419,12 +419,16 @@ func (p *Pollard) Verify(delHashes []Hash, proof Proof, remember bool) error {
 			"but have %d deletions", len(delHashes))
 	}
 
+	// Each root candidate must match the root of the tree it was calculated in
+	// and a tree may only be calculated once.
 	rootMatches := 0
-	for i := range p.Roots {
-		if len(rootCandidates) > rootMatches &&
-			p.Roots[len(p.Roots)-(i+1)].data == rootCandidates[rootMatches] {
-			rootMatches++
+	for i, candidate := range rootCandidates {
+		idx := rootIdxOnRow(p.NumLeaves, rootRows[i])
+		if idx >= len(p.Roots) || p.Roots[idx].data != candidate ||
+			(i > 0 && rootRows[i] == rootRows[i-1]) {
+			break
 		}
+		rootMatches++
 	}
 	// Error out if all the rootCandidates do not have a corresponding
 	// polnode with the same hash.
@@ -544,6 +548,13 @@ func getNextPos(slice1, slice2 []uint64, slice1Idx, slice2Idx int) (uint64, int,
 // hashes of the roots and the nodes used to calculate the roots after the
 // deletion of the targets.
 func calculateHashes(numLeaves uint64, delHashes []Hash, proof Proof) (hashAndPos, []Hash, error) {
+	hnp, rootHashes, _, err := calculateHashesAndRows(numLeaves, delHashes, proof)
+	return hnp, rootHashes, err
+}
+
+// calculateHashesAndRows is calculateHashes that also returns the row of the
+// tree each of the returned root hashes was calculated in.
+func calculateHashesAndRows(numLeaves uint64, delHashes []Hash, proof Proof) (hashAndPos, []Hash, []uint8, error) {
 	totalRows := TreeRows(numLeaves)
 
 	// Where all the parent hashes we've calculated in a given row will go to.
@@ -560,6 +571,7 @@ func calculateHashes(numLeaves uint64, delHashes []Hash, proof Proof) (hashAndPo
 
 	// Where all the root hashes that we've calculated will go to.
 	calculatedRootHashes := make([]Hash, 0, numRoots(numLeaves))
+	calculatedRootRows := make([]uint8, 0, numRoots(numLeaves))
 
 	// Separate index for the hashes in the passed in proof.
 	proofHashIdx := 0
@@ -587,7 +599,7 @@ func calculateHashes(numLeaves uint64, delHashes []Hash, proof Proof) (hashAndPo
 		for provePos > maxPos {
 			row++
 			if row > totalRows {
-				return hashAndPos{}, nil, fmt.Errorf("invalid proof. Position %d "+
+				return hashAndPos{}, nil, nil, fmt.Errorf("invalid proof. Position %d "+
 					"does not exist in an accumulator with %d leaves", provePos, numLeaves)
 			}
 			maxPos, _ = maxPositionAtRow(row, totalRows, numLeaves)
@@ -596,6 +608,7 @@ func calculateHashes(numLeaves uint64, delHashes []Hash, proof Proof) (hashAndPo
 		// This means we hashed all the way to the top of this subtree.
 		if isRootPositionOnRow(provePos, numLeaves, row) {
 			calculatedRootHashes = append(calculatedRootHashes, proveHash)
+			calculatedRootRows = append(calculatedRootRows, row)
 			continue
 		}
 
@@ -611,7 +624,7 @@ func calculateHashes(numLeaves uint64, delHashes []Hash, proof Proof) (hashAndPo
 			}
 		} else {
 			if len(proof.Proof) <= proofHashIdx {
-				return hashAndPos{}, nil, fmt.Errorf("invalid proof. Proof too short.")
+				return hashAndPos{}, nil, nil, fmt.Errorf("invalid proof. Proof too short.")
 			}
 
 			// If the next prove isn't the sibling of this prove, we fetch
@@ -623,7 +636,7 @@ func calculateHashes(numLeaves uint64, delHashes []Hash, proof Proof) (hashAndPo
 			// hashes after a deletion. A node with a deleted sibling has
 			// moved up so an empty hash is never a part of a valid proof.
 			if sibHash == empty {
-				return hashAndPos{}, nil, fmt.Errorf("invalid proof. Empty proof hash")
+				return hashAndPos{}, nil, nil, fmt.Errorf("invalid proof. Empty proof hash")
 			}
 		}
 
@@ -635,7 +648,7 @@ func calculateHashes(numLeaves uint64, delHashes []Hash, proof Proof) (hashAndPo
 	// Add in the targets as well since we need them as well to calculate up
 	// to the roots.
 	nextProves = mergeSortedHashAndPos(nextProves, toProve)
-	return nextProves, calculatedRootHashes, nil
+	return nextProves, calculatedRootHashes, calculatedRootRows, nil
 }
 
 func mergeSortedSlicesFunc[E any](a, b []E, cmp func(E, E) int) (c []E) {
